@@ -31,6 +31,7 @@ type faultCase struct {
 	FileTypes []int              `json:"file_types"`
 	Chunk     gen.Chunking       `json:"chunking"`
 	Text      []string           `json:"text,omitempty"`
+	Note      string             `json:"note,omitempty"`
 }
 
 type layoutInfo struct {
@@ -183,141 +184,179 @@ func check(rec *hx.Recorder, c *faultCase, regions map[string]int64) (string, bo
 		regions[region]++
 	}
 
+	// cuts that fall exactly on a structural boundary (end of a header, of a
+	// record, of the data section, of a file) are also handed to every entry
+	// point through every in-memory reader kind
+	npass := 1
+	if !isFault && k < total {
+		for i := range li.starts {
+			rel := k - li.starts[i]
+			l := li.lays[i]
+			if rel < 0 || rel > len(l.Bytes) {
+				continue
+			}
+			if rel == int(l.Bytes[0]) || rel == l.DataEnd || rel == len(l.Bytes) {
+				npass = 1 + len(memKinds)
+			}
+			for _, e := range l.RecEnd {
+				if rel == e {
+					npass = 1 + len(memKinds)
+				}
+			}
+		}
+	}
 	var msg string
 	p := oracle.Catch(func() {
-		for e := 0; e < 6; e++ {
-			need := 0
-			switch e {
-			case eDecode, eIntegrity:
-				need = frame0
-			case eChained:
-				need = total
-				if isFault {
-					// the end of a chain is only known after a clean EOF
-					need = total + 1
+		for pass := 0; pass < npass; pass++ {
+			for e := 0; e < 6; e++ {
+				need := 0
+				switch e {
+				case eDecode, eIntegrity:
+					need = frame0
+				case eChained:
+					need = total
+					if isFault {
+						// the end of a chain is only known after a clean EOF
+						need = total + 1
+					}
+				case eIntegrityHdr, eHeader:
+					need = hs
+				case eHeaderFileID:
+					need = fileIDEnd
 				}
-			case eIntegrityHdr, eHeader:
-				need = hs
-			case eHeaderFileID:
-				need = fileIDEnd
-			}
-			r := gen.NewReader(li.data, c.Chunk)
-			var err error
-			var f *fit.File
-			var fs []*fit.File
-			// every third offset with all decode options on (a debug logger
-			// whose output is discarded, unknown-field and unknown-message
-			// tallies): the options must not change what a cut or a fault
-			// leads to
-			var opts []fit.DecodeOption
-			if k%3 == 1 {
-				opts = []fit.DecodeOption{fit.WithLogger(log.New(io.Discard, "", 0)), fit.WithUnknownFields(), fit.WithUnknownMessages()}
-			}
-			switch e {
-			case eDecode:
-				f, err = fit.Decode(r, opts...)
-			case eChained:
-				fs, err = fit.DecodeChained(r, opts...)
-			case eIntegrity:
-				err = fit.CheckIntegrity(r, false)
-			case eIntegrityHdr:
-				err = fit.CheckIntegrity(r, true)
-			case eHeader:
-				_, err = fit.DecodeHeader(r)
-			case eHeaderFileID:
-				_, _, err = fit.DecodeHeaderAndFileID(r)
-			}
-			what := "cut"
-			if isFault {
-				what = "read fault"
-			}
-			if k >= need {
-				if err != nil {
-					msg = fmt.Sprintf("%s failed (%v) although the %s at offset %d lies beyond the %d bytes it needs", entryNames[e], err, what, k, need)
+				var r io.Reader = gen.NewReader(li.data, c.Chunk)
+				// a quarter of the cut inputs are handed over as one of the
+				// standard library's reader types holding exactly the cut bytes
+				// (*bytes.Buffer, *strings.Reader, *io.SectionReader, ...): the
+				// verdict must not depend on what the reader's type can do
+				kindName := ""
+				if pass > 0 || (!isFault && (k+int(e))%4 == 1) {
+					kind := memKinds[(k/4+int(e))%len(memKinds)]
+					if pass > 0 {
+						kind = memKinds[pass-1]
+					}
+					if kr, _, done, oerr := kind.Open(li.data[:k]); oerr == nil {
+						r, kindName = kr, " read through a "+kind.Name
+						defer done()
+					}
+				}
+				var err error
+				var f *fit.File
+				var fs []*fit.File
+				// every third offset with all decode options on (a debug logger
+				// whose output is discarded, unknown-field and unknown-message
+				// tallies): the options must not change what a cut or a fault
+				// leads to
+				var opts []fit.DecodeOption
+				if k%3 == 1 {
+					opts = []fit.DecodeOption{fit.WithLogger(log.New(io.Discard, "", 0)), fit.WithUnknownFields(), fit.WithUnknownMessages()}
+				}
+				switch e {
+				case eDecode:
+					f, err = fit.Decode(r, opts...)
+				case eChained:
+					fs, err = fit.DecodeChained(r, opts...)
+				case eIntegrity:
+					err = fit.CheckIntegrity(r, false)
+				case eIntegrityHdr:
+					err = fit.CheckIntegrity(r, true)
+				case eHeader:
+					_, err = fit.DecodeHeader(r)
+				case eHeaderFileID:
+					_, _, err = fit.DecodeHeaderAndFileID(r)
+				}
+				what := "cut" + kindName
+				if isFault {
+					what = "read fault"
+				}
+				if k >= need {
+					if err != nil {
+						msg = fmt.Sprintf("%s failed (%v) although the %s at offset %d lies beyond the %d bytes it needs", entryNames[e], err, what, k, need)
+						return
+					}
+					if e == eDecode {
+						if m, ok := comparePartial(rec, f, c.Streams[0], first, c.FileTypes[0], frame0); !ok {
+							msg = "Decode (complete input): " + m
+							return
+						}
+					}
+					if e == eChained && len(fs) != len(c.Streams) {
+						msg = fmt.Sprintf("DecodeChained returned %d files for %d complete ones", len(fs), len(c.Streams))
+						return
+					}
+					continue
+				}
+				// k < need
+				if e == eChained {
+					// complete files before k
+					nComplete := 0
+					for i := range li.starts {
+						if li.starts[i]+len(li.lays[i].Bytes) <= k {
+							nComplete++
+						}
+					}
+					onBoundary := nComplete > 0 && nComplete < len(li.starts) && li.starts[nComplete] == k
+					if onBoundary && !isFault {
+						// the one exception: clean end of input on a file boundary
+						if err != nil {
+							msg = fmt.Sprintf("DecodeChained failed (%v) on a clean end of input exactly on the boundary after file %d", err, nComplete)
+							return
+						}
+						if len(fs) != nComplete {
+							msg = fmt.Sprintf("DecodeChained returned %d files, %d were complete before the end of input", len(fs), nComplete)
+							return
+						}
+					} else {
+						if err == nil {
+							msg = fmt.Sprintf("DecodeChained returned nil error for a %s at offset %d of a %d-byte chain (%d complete files before it)", what, k, total, nComplete)
+							return
+						}
+						if len(fs) < nComplete || len(fs) > nComplete+1 {
+							msg = fmt.Sprintf("DecodeChained returned %d files alongside the error, %d were complete before offset %d", len(fs), nComplete, k)
+							return
+						}
+						if len(fs) == nComplete+1 {
+							rel := k - li.starts[nComplete]
+							if m, ok := comparePartial(rec, fs[nComplete], c.Streams[nComplete], li.lays[nComplete], c.FileTypes[nComplete], rel); !ok {
+								msg = fmt.Sprintf("DecodeChained, partial file %d: %s", nComplete, m)
+								return
+							}
+						}
+					}
+					for i := 0; i < nComplete && i < len(fs); i++ {
+						if m, ok := comparePartial(rec, fs[i], c.Streams[i], li.lays[i], c.FileTypes[i], len(li.lays[i].Bytes)); !ok {
+							msg = fmt.Sprintf("DecodeChained, complete file %d: %s", i, m)
+							return
+						}
+					}
+					continue
+				}
+				if err == nil {
+					msg = fmt.Sprintf("%s returned nil error for a %s at offset %d; it needs %d bytes", entryNames[e], what, k, need)
 					return
 				}
 				if e == eDecode {
-					if m, ok := comparePartial(rec, f, c.Streams[0], first, c.FileTypes[0], frame0); !ok {
-						msg = "Decode (complete input): " + m
+					if m, ok := comparePartial(rec, f, c.Streams[0], first, c.FileTypes[0], k); !ok {
+						msg = "Decode: " + m
 						return
 					}
-				}
-				if e == eChained && len(fs) != len(c.Streams) {
-					msg = fmt.Sprintf("DecodeChained returned %d files for %d complete ones", len(fs), len(c.Streams))
-					return
-				}
-				continue
-			}
-			// k < need
-			if e == eChained {
-				// complete files before k
-				nComplete := 0
-				for i := range li.starts {
-					if li.starts[i]+len(li.lays[i].Bytes) <= k {
-						nComplete++
-					}
-				}
-				onBoundary := nComplete > 0 && nComplete < len(li.starts) && li.starts[nComplete] == k
-				if onBoundary && !isFault {
-					// the one exception: clean end of input on a file boundary
-					if err != nil {
-						msg = fmt.Sprintf("DecodeChained failed (%v) on a clean end of input exactly on the boundary after file %d", err, nComplete)
-						return
-					}
-					if len(fs) != nComplete {
-						msg = fmt.Sprintf("DecodeChained returned %d files, %d were complete before the end of input", len(fs), nComplete)
-						return
-					}
-				} else {
-					if err == nil {
-						msg = fmt.Sprintf("DecodeChained returned nil error for a %s at offset %d of a %d-byte chain (%d complete files before it)", what, k, total, nComplete)
-						return
-					}
-					if len(fs) < nComplete || len(fs) > nComplete+1 {
-						msg = fmt.Sprintf("DecodeChained returned %d files alongside the error, %d were complete before offset %d", len(fs), nComplete, k)
-						return
-					}
-					if len(fs) == nComplete+1 {
-						rel := k - li.starts[nComplete]
-						if m, ok := comparePartial(rec, fs[nComplete], c.Streams[nComplete], li.lays[nComplete], c.FileTypes[nComplete], rel); !ok {
-							msg = fmt.Sprintf("DecodeChained, partial file %d: %s", nComplete, m)
-							return
-						}
-					}
-				}
-				for i := 0; i < nComplete && i < len(fs); i++ {
-					if m, ok := comparePartial(rec, fs[i], c.Streams[i], li.lays[i], c.FileTypes[i], len(li.lays[i].Bytes)); !ok {
-						msg = fmt.Sprintf("DecodeChained, complete file %d: %s", i, m)
-						return
-					}
-				}
-				continue
-			}
-			if err == nil {
-				msg = fmt.Sprintf("%s returned nil error for a %s at offset %d; it needs %d bytes", entryNames[e], what, k, need)
-				return
-			}
-			if e == eDecode {
-				if m, ok := comparePartial(rec, f, c.Streams[0], first, c.FileTypes[0], k); !ok {
-					msg = "Decode: " + m
-					return
-				}
-				// the same cut input as a regular file on disk (and, on other
-				// offsets, as the read end of a pipe): what comes back with
-				// the error does not depend on the kind of reader
-				if !isFault && k%5 == 2 {
-					kinds := gen.ReaderKinds(os.Getenv("VERIF_BUILD"))
-					kind := kinds[3+(k/5)%2] // regular *os.File / os.Pipe
-					if kr, _, done, oerr := kind.Open(li.data[:k]); oerr == nil {
-						fk, kerr := fit.Decode(kr)
-						done()
-						if kerr == nil {
-							msg = fmt.Sprintf("Decode through a %s returned nil error for a cut at offset %d; it needs %d bytes", kind.Name, k, need)
-							return
-						}
-						if m, ok := comparePartial(rec, fk, c.Streams[0], first, c.FileTypes[0], k); !ok {
-							msg = fmt.Sprintf("Decode through a %s: %s", kind.Name, m)
-							return
+					// the same cut input as a regular file on disk (and, on other
+					// offsets, as the read end of a pipe): what comes back with
+					// the error does not depend on the kind of reader
+					if !isFault && k%5 == 2 {
+						kinds := gen.ReaderKinds(os.Getenv("VERIF_BUILD"))
+						kind := kinds[len(kinds)-2+(k/5)%2] // regular *os.File / os.Pipe
+						if kr, _, done, oerr := kind.Open(li.data[:k]); oerr == nil {
+							fk, kerr := fit.Decode(kr)
+							done()
+							if kerr == nil {
+								msg = fmt.Sprintf("Decode through a %s returned nil error for a cut at offset %d; it needs %d bytes", kind.Name, k, need)
+								return
+							}
+							if m, ok := comparePartial(rec, fk, c.Streams[0], first, c.FileTypes[0], k); !ok {
+								msg = fmt.Sprintf("Decode through a %s: %s", kind.Name, m)
+								return
+							}
 						}
 					}
 				}
@@ -329,6 +368,12 @@ func check(rec *hx.Recorder, c *faultCase, regions map[string]int64) (string, bo
 	}
 	return msg, msg == ""
 }
+
+// memKinds are the reader kinds that need no file descriptor.
+var memKinds = func() []gen.ReaderKind {
+	all := gen.ReaderKinds("")
+	return all[:len(all)-2]
+}()
 
 func mkChunk(kind int, k int, mode int) gen.Chunking {
 	var ch gen.Chunking
@@ -365,6 +410,70 @@ func mkChunk(kind int, k int, mode int) gen.Chunking {
 	return ch
 }
 
+// cutHuge: a valid file of nearly 4 GiB (data sizes 2^32-2 and 2^32-1, both
+// header sizes) cut early: however large the announced data section, a short
+// stream is reported by every entry point that needs more than it got.
+func cutHuge(rec *hx.Recorder) {
+	n := int64(0)
+	for _, size := range []uint32{0xFFFFFFFE, 0xFFFFFFFF, 0xFFFFF001, 0x80000000, 0x7FFFFFFF} {
+		for _, h14 := range []bool{false, true} {
+			hs := uint64(12)
+			if h14 {
+				hs = 14
+			}
+			for _, cut := range []uint64{hs - 1, hs, hs + 1, hs + 6, 100, 4096, 70000, 1 << 20} {
+				for e := 0; e < 6; e++ {
+					g := gen.NewBigFile(uint64(size), size, nil, h14)
+					g.CutAt = cut
+					var err error
+					p := oracle.Catch(func() {
+						switch e {
+						case 0:
+							_, err = fit.Decode(g)
+						case 1:
+							_, err = fit.DecodeChained(g)
+						case 2:
+							err = fit.CheckIntegrity(g, false)
+						case 3:
+							err = fit.CheckIntegrity(g, true)
+						case 4:
+							_, err = fit.DecodeHeader(g)
+						case 5:
+							_, _, err = fit.DecodeHeaderAndFileID(g)
+						}
+					})
+					n++
+					name := []string{"Decode", "DecodeChained", "CheckIntegrity(false)", "CheckIntegrity(true)", "DecodeHeader", "DecodeHeaderAndFileID"}[e]
+					mustFail := true
+					switch e {
+					case 3, 4:
+						mustFail = cut < hs
+					case 5:
+						// the file_id definition (9 bytes) and record (2
+						// bytes) end at hs+11
+						mustFail = cut < hs+11
+					}
+					c := faultCase{Note: fmt.Sprintf("(cut-huge) a valid %d-byte file (header of %d bytes, data size %d) cut after %d bytes, %s", g.Total(), hs, size, cut, name)}
+					if p != nil {
+						rec.Fail("cut-huge", "", fmt.Sprintf("%s panicked on a valid file with data size %d cut after %d bytes: %v", name, size, cut, p), &c)
+						return
+					}
+					if mustFail && err == nil {
+						rec.Fail("cut-huge", "", fmt.Sprintf("%s returned nil error for a valid file with data size %d (header of %d bytes) cut after %d bytes; it read %d bytes", name, size, hs, cut, g.Delivered), &c)
+						return
+					}
+					if e >= 3 && e <= 4 && cut >= hs && err != nil {
+						rec.Fail("cut-huge", "", fmt.Sprintf("%s failed (%v) although the cut after %d bytes lies beyond the %d header bytes it needs", name, err, cut, hs), &c)
+						return
+					}
+				}
+			}
+		}
+	}
+	rec.Eval("cut-huge", n)
+	rec.NonTrivialEnum(n)
+}
+
 func TestC11(t *testing.T) {
 	hx.Main(t, "C11", func(rec *hx.Recorder) {
 		if rp, ok := hx.LoadReplay(); ok {
@@ -373,12 +482,20 @@ func TestC11(t *testing.T) {
 				t.Fatal(err)
 			}
 			rec.Eval("replay", 1)
+			if rp.Sub == "cut-huge" {
+				cutHuge(rec)
+				return
+			}
 			if msg, ok := check(rec, &c, nil); !ok {
 				rec.Fail(rp.Sub, "", msg, &c)
 			}
 			return
 		}
 		regions := map[string]int64{}
+
+		if hx.FirstShard() {
+			cutHuge(rec)
+		}
 
 		if hx.FirstShard() {
 			// corpus files with a parseable structure: every offset near a
